@@ -5,7 +5,7 @@ import check
 
 RULE = ("to_mysql_bin called directly on every (Rust integer type x integer column type x signedness) cell: all 8- and "
         "16-bit values exhaustively, for wider types all +-2^k, +-2^k+-1, the bounds of every width and random values; "
-        "also through mysql_common Value::Int/UInt; oracle: accepted => client decodes the same number, range-containing "
+        "also through mysql_common Value::Int/UInt; the boundary values again with every other column flag set (only UNSIGNED decides signedness); oracle: accepted => client decodes the same number, range-containing "
         "columns accept, pointer-sized accept iff the value fits; non-trivial = value outside [0,127] or a cell where type "
         "and column differ in width or signedness; distinct = distinct (type, value, column, signedness)")
 ASSUMPTIONS = ["usize/isize are 64-bit (asserted by the harness platform)"]
@@ -40,6 +40,18 @@ def run(ctx):
                 for v in vals:
                     lines.append("b %d %d %s:%d" % (ct, 32 if uns else 0, ty, v))
                     meta.append((ty, v, ct, uns))
+    # the signedness of a column is its UNSIGNED flag and nothing else: the same cells with other flag bits set
+    # (NOT_NULL 1, ZEROFILL 64, BINARY 128, AUTO_INCREMENT 512, NUM 32768, everything but UNSIGNED)
+    for ty in list(progs.INT_TYPES) + ["mint", "muint"]:
+        lo, hi = progs.INT_TYPES.get(ty, progs.INT_TYPES["i64" if ty == "mint" else "u64"])
+        bounds = sorted(set(v for v in [lo, hi, -1, 0, 1, 127, 128, 255, 256, 32767, 32768, 65535, 65536, 2**31 - 1, 2**31, 2**32 - 1,
+                                        2**63 - 1, 2**63, -128, -129, -32768, -2**31, -2**63] if lo <= v <= hi))
+        for ct in COLS:
+            for uns in (False, True):
+                for extra in (64, 1 | 64 | 128, 512 | 32768, 0xffff & ~32):
+                    for v in bounds:
+                        lines.append("b %d %d %s:%d" % (ct, (32 if uns else 0) | extra, ty, v))
+                        meta.append((ty, v, ct, uns))
     # generic values
     gvals = values_for("i64", rng, ctx.quick())
     for ct in COLS:
